@@ -75,7 +75,8 @@ def cases(tier, seed):
     for i in range(48 if q else 600):
         cfg = small_cfg(rng, "callable")
         yield {"kind": "restart2", "problem": prob(6), "cfg": cfg, "scaler": gen.pick(rng, [None, 0.01, 3.0, "packaged"]),
-               "extra": int(rng.integers(1, 4)), "target_met": bool(i % 3 == 0), "ufd_in_place": bool(i % 3 == 1)}
+               "extra": int(rng.integers(1, 4)), "target_met": bool(i % 3 == 0), "ufd_in_place": bool(i % 3 == 1),
+               "maxcor_drop": int(rng.integers(1, 4)) if i % 2 == 0 else 0}
     for i in range(32 if q else 800):
         yield {"kind": "frozen", "problem": prob(6), "cfg": small_cfg(rng), "scaler": gen.pick(rng, [None, 0.5, 7.0, "packaged"])}
     for i in range(16 if q else 300):
@@ -159,6 +160,9 @@ def case_restart2(spec, out):
     if spec.get("target_met") and np.isfinite(ck.fun):
         c2["ftarget"] = float(ck.fun) + 1.0  # the checkpoint already meets the target: early return path
         c2.pop("scaler", None)
+    if spec.get("maxcor_drop"):
+        c2["maxcor"] = max(1, int(cfg.get("maxcor", 10)) - int(spec["maxcor_drop"]))  # the continuation asks for a smaller memory
+        out.count("double_restarts_with_a_smaller_memory")
     hooks = {}
     if spec.get("ufd_in_place") and not spec.get("target_met"):
         # the objective gained a term t.x between the two runs: the update function adds its gradient IN PLACE to every array it is
@@ -223,6 +227,30 @@ def case_frozen(spec, out):
     if fresh.digest_state(snap) != fresh.digest_state(ref.snap):
         out.violate("frozen_inputs_change_result", f"frozen {P.spec['family']}: result differs with read-only inputs", what="x0_bounds", **tags)
         return
+    # 1b. a box whose open sides are written as the largest finite double instead of infinity (read-only as well)
+    tr = probes.Trace()
+    kw = probes.build_kwargs(P, cfg, tr)
+    bounds = np.array(kw["bounds"], dtype=float, copy=True)
+    big = np.finfo(float).max
+    bounds[:, 0] = np.where(np.isneginf(bounds[:, 0]), -big, bounds[:, 0])
+    bounds[:, 1] = np.where(np.isposinf(bounds[:, 1]), big, bounds[:, 1])
+    if np.any(np.abs(bounds) == big):
+        kw["bounds"] = bounds
+        probes.freeze(kw["x0"], bounds)
+        fp = probes.fingerprint(kw["x0"], bounds)
+        old = np.seterr(all="ignore")
+        try:
+            minimize_lbfgsb(**kw)
+        except Exception as e:
+            out.violate("readonly_input_rejected", f"frozen {P.spec['family']}: read-only bounds with sides at the largest finite double made the call raise {e!r}",
+                        what="huge_bounds", **tags)
+            return
+        finally:
+            np.seterr(**old)
+        out.count("frozen_cases_with_bounds_at_the_largest_finite_double")
+        if probes.fingerprint(kw["x0"], bounds) != fp:
+            out.violate("input_modified", f"frozen {P.spec['family']}: bounds with sides at the largest finite double were changed by the call", what="huge_bounds", **tags)
+            return
     # 2. frozen checkpoint, restart with / without scaler
     ck = ref.result
     arrays = [ck.x, ck.jac, ck.hess_inv.sk, ck.hess_inv.yk]
